@@ -62,6 +62,11 @@ func init() {
 			{"internal/client/upstream", "Upstreams", "openStream", "sync_upstreams_open_stream"},
 			{"internal/socketace", "", "NewServerConnection", "sync_new_server_connection"},
 			{"internal/socketace", "", "NewClientConnection", "sync_new_client_connection"},
+			{"internal/socketace", "ServerConnection", "handshake", "sync_server_handshake"},
+			{"internal/socketace", "ServerConnection", "upgrade", "sync_server_upgrade"},
+			{"internal/socketace", "ClientConnection", "handshake", "sync_client_handshake"},
+			{"internal/socketace", "ClientConnection", "upgrade", "sync_client_upgrade"},
+			{"internal/socketace", "ClientConnection", "startTls", "sync_client_start_tls"},
 		} {
 			fd := findFunc(x.dir, x.recv, x.fn)
 			f.raw("Definition " + x.name + " : string := \"" + strings.Replace(syncOps(fd), "\"", "\"\"", -1) + "\". (* " + pos(fd) + " *)\n")
